@@ -123,7 +123,108 @@ func c15LargeSegments(c *explore.Ctx) *explore.Violation {
 	return nil
 }
 
+// c15FailedMaintenance: "the database stays usable" and keeps reclaiming space after a maintenance call that FAILED.
+// Backup resp. Compact is hit by a transient I/O error at each of its mutating file-system calls; afterwards three
+// rounds of [Put(a), Put(b), Delete(a), Compact] must succeed (Compact must not be refused as busy), the directory
+// oracle must hold after each step and the resource vector must not grow from round 2 to round 3; then Backup and a
+// restart must work.
+func c15FailedMaintenance(c *explore.Ctx) {
+	for _, bc := range [][2]string{{"S2", "ROLL"}, {"E", "ROLL"}, {"S4", "ROLL"}} {
+		for _, m := range []explore.Op{{Kind: explore.Backup}, {Kind: explore.Compact}} {
+			if !c.Mine() {
+				continue
+			}
+			base, err := explore.GetBase(bc[0], cfgByName(bc[1]), 0)
+			if err != nil {
+				c.HarnessError("%v", err)
+			}
+			explore.PinSeed(0)
+			for n := 1; n < 200; n++ {
+				if c.Expired() || c.NViolations() > 0 {
+					return
+				}
+				done, bad := c15FailedMaintCase(c, base, m, n)
+				if bad != "" {
+					c.Violation(explore.Violation{Key: fmt.Sprintf("failed-maintenance base=%s cfg=%s op=%s fault@%d", bc[0], bc[1], m, n),
+						What: fmt.Sprintf("base %s/%s: [Put(a)] then %s with a transient I/O error at its mutating file-system call #%d, then rounds of [Put(a) Put(b) Delete(a) Compact]: %s", bc[0], bc[1], m, n, bad), Size: n,
+						Replay: map[string]interface{}{"kind": "failmaint15", "base": bc[0], "cfg": bc[1], "op": opsJSON([]explore.Op{m}), "fault_at": n, "observed": bad}})
+					return
+				}
+				if done {
+					break
+				}
+			}
+		}
+	}
+}
+
+// c15FailedMaintCase: done = the call makes fewer than n mutating file-system calls.
+func c15FailedMaintCase(c *explore.Ctx, base *explore.Base, m explore.Op, n int) (bool, string) {
+	s := base.NewSess()
+	if err := s.OpenDB(); err != nil {
+		return true, "Open: " + err.Error()
+	}
+	_ = s.Apply(explore.Op{Kind: explore.Put, Key: "a"})
+	before := s.FS.Mutations()
+	s.FS.FailAt = before + n
+	_ = s.Apply(m)
+	s.FS.FailAt = 0
+	if s.FS.Mutations() < before+n {
+		_ = s.ProtectedClose()
+		return true, ""
+	}
+	c.Add("executions", 1)
+	c.Add("failed_maintenance_probes", 1)
+	c.Add("transitions", 14)
+	bad := ""
+	var vecs []resVec
+rounds:
+	for r := 1; r <= 3 && bad == ""; r++ {
+		for _, o := range []explore.Op{{Kind: explore.Put, Key: "a"}, {Kind: explore.Put, Key: "b"}, {Kind: explore.Delete, Key: "a"}, {Kind: explore.Compact}} {
+			if err := s.Apply(o); err != nil {
+				bad = fmt.Sprintf("round %d: %s returned error: %v", r, o, err)
+				break rounds
+			}
+			if s.Panicked != "" {
+				bad = s.Panicked
+				break rounds
+			}
+			if msg := dirOracle(s); msg != "" && m.Kind == explore.Backup {
+				// (a failed Compact may leave a half-written destination segment behind: not judged here)
+				bad = fmt.Sprintf("round %d after %s: %s", r, o, msg)
+				break rounds
+			}
+		}
+		vecs = append(vecs, resVec{Bytes: s.FS.TotalBytes(explore.DBPath), Files: len(s.FS.NamesIn(explore.DBPath)), Segs: len(s.DB.VerifSegments())})
+	}
+	if bad == "" && (vecs[2].Bytes > vecs[1].Bytes || vecs[2].Files > vecs[1].Files) {
+		bad = fmt.Sprintf("the directory keeps growing: round 2 %+v, round 3 %+v", vecs[1], vecs[2])
+	}
+	if bad == "" {
+		for _, o := range []explore.Op{{Kind: explore.Backup}, {Kind: explore.Reopen}} {
+			if err := s.Apply(o); err != nil {
+				bad = fmt.Sprintf("then %s returned error: %v", o, err)
+				break
+			}
+		}
+	}
+	if bad == "" {
+		if msg := s.Check(); msg != "" {
+			bad = "after the rounds, a Backup and a restart: " + msg
+		}
+	}
+	if s.Panicked != "" {
+		bad = s.Panicked
+	}
+	_ = s.ProtectedClose()
+	return false, bad
+}
+
 func runC15(c *explore.Ctx) {
+	c15FailedMaintenance(c)
+	if c.Expired() || c.NViolations() > 0 {
+		return
+	}
 	if c.Mine() {
 		c.Add("executions", 1)
 		if v := c15LargeSegments(c); v != nil {
